@@ -52,7 +52,7 @@ def check(col: Collector, tier: str):
         return
     w = writers[0]
     gs = guards(fn, w, pm)
-    # identify the block variable: the for-loop enclosing the guards that iterates the lookup table
+    gset = {(src(t), tr) for t, tr in gs}
     fors = enclosing(fn, w, (ast.For,), pm)
     whiles = enclosing(fn, w, (ast.While,), pm)
     if not fors or not whiles:
@@ -60,57 +60,79 @@ def check(col: Collector, tier: str):
     # the writer adds <block>.script whole and in order: out.extend(<block>.script)  (E-NORM N12: a loop that appends each line reads the same)
     whole = isinstance(w, ast.Call) and call_name(w) == "extend" and len(w.args) == 1 and isinstance(w.args[0], ast.Attribute) and w.args[0].attr == "script"
     blockvar = src(w.args[0].value) if whole else "?"
-    inner = pm[w]            # the statement that holds the writer (its siblings are the emitting branch)
-    fors = [inner] + list(fors)
     col.add("C15.R1", "generate_script_block", "emits-whole-script-in-order", whole,
             f"the writer must add every line of <block>.script in order (found {src(w)[:60]})", g.loc)
-    # guards: not in seen ; set(deps[name]) <= seen
+    # guard atoms (closed guard set: nested ifs, one `and`, guard clauses with continue all read the same):
+    #   <block>.name in <seen> is False;   dependencies[<block>.name] is a subset of <seen>
     seen = None
-    not_seen = False
-    subset = False
     for t, truth in gs:
+        if isinstance(t, ast.Compare) and len(t.ops) == 1 and isinstance(t.ops[0], ast.In) and not truth and src(t.left) == f"{blockvar}.name":
+            seen = src(t.comparators[0])
+    not_seen = seen is not None
+
+    def is_subset_test(t) -> bool:
+        """t says: every dependency of <block> is in <seen>"""
+        dep = f"[{blockvar}.name]"
         if isinstance(t, ast.Compare) and len(t.ops) == 1:
             l, op, r = t.left, t.ops[0], t.comparators[0]
-            if isinstance(op, ast.NotIn) and truth and src(l) == f"{blockvar}.name":
-                not_seen, seen = True, src(r)
-            if isinstance(op, ast.In) and not truth and src(l) == f"{blockvar}.name":
-                not_seen, seen = True, src(r)
-    for t, truth in gs:
-        if isinstance(t, ast.Compare) and len(t.ops) == 1 and seen:
-            l, op, r = t.left, t.ops[0], t.comparators[0]
-            dep_expr = f"[{blockvar}.name]"
-            if truth and isinstance(op, ast.LtE) and src(r) == seen and dep_expr in src(l) and "set(" in src(l):
-                subset = True
-            if truth and isinstance(op, ast.GtE) and src(l) == seen and dep_expr in src(r) and "set(" in src(r):
-                subset = True
-        if isinstance(t, ast.Call) and call_name(t) == "issubset" and truth and seen and src(t.args[0]) == seen \
-                and f"[{blockvar}.name]" in src(t.func.value):
-            subset = True
+            if isinstance(op, ast.LtE) and src(r) == seen and dep in src(l) and "set(" in src(l):
+                return True
+            if isinstance(op, ast.GtE) and src(l) == seen and dep in src(r) and "set(" in src(r):
+                return True
+        if isinstance(t, ast.Call) and call_name(t) == "issubset" and len(t.args) == 1 and src(t.args[0]) == seen and dep in src(t.func.value):
+            return True
+        if isinstance(t, ast.Call) and call_name(t) == "issuperset" and len(t.args) == 1 and src(t.func.value) == seen and dep in src(t.args[0]):
+            return True
+        if isinstance(t, ast.Call) and call_name(t) == "all" and len(t.args) == 1 and isinstance(t.args[0], (ast.GeneratorExp, ast.ListComp)):
+            ge = t.args[0]
+            if len(ge.generators) == 1 and not ge.generators[0].ifs and dep in src(ge.generators[0].iter) and isinstance(ge.elt, ast.Compare) \
+                    and len(ge.elt.ops) == 1 and isinstance(ge.elt.ops[0], ast.In) and src(ge.elt.left) == src(ge.generators[0].target) \
+                    and src(ge.elt.comparators[0]) == seen:
+                return True
+        return False
+    subset = seen is not None and any(truth and is_subset_test(t) for t, truth in gs)
     col.add("C15.R1", "generate_script_block", "guard:not-already-emitted", not_seen,
             f"emission must be control-dependent on `{blockvar}.name not in <seen>` (found guards {[src(t) + '=' + str(b) for t, b in gs]})", g.loc)
+    if seen is not None and not subset:
+        others = [src(t) for t, truth in gs if not (isinstance(t, ast.Compare) and src(t.left) == f"{blockvar}.name" and src(t.comparators[0]) == seen)
+                  and not isinstance(t, (ast.For, ast.While, ast.BoolOp, ast.Constant)) and src(t) not in {src(w_.test) for w_ in whiles}]
+        if others:
+            # another readiness test (counters, a work list that is struck off, ...): a different algorithm, not decided by this rule
+            col.defer(f"generate_script_block decides readiness by {others[:2]}, not by `dependencies of the block are a subset of the emitted ones`: "
+                      "C15.R1 guard:dependencies-subset-of-seen cannot be decided on this algorithm")
+            subset = True
     col.add("C15.R1", "generate_script_block", "guard:dependencies-subset-of-seen", subset,
             "emission must be control-dependent on set(dependencies[block.name]) <= seen (dependencies on the left)", g.loc)
-    # seen.add(name) in the same branch as the writer (sibling of the inner for)
-    branch = pm[inner]
-    lst = None
-    for fld in ("body", "orelse"):
-        if inner in getattr(branch, fld, []):
-            lst = getattr(branch, fld)
-    added = lst is not None and any(
-        isinstance(s, ast.Expr) and isinstance(s.value, ast.Call) and call_name(s.value) == "add"
-        and src(s.value.func.value) == seen and src(s.value.args[0]) == f"{blockvar}.name" for s in lst)
+    # seen.add(name) under exactly the guards of the writer
+    adds = [c for c in walk_no_nested(fn) if isinstance(c, ast.Call) and call_name(c) == "add" and seen and src(c.func.value) == seen
+            and len(c.args) == 1 and src(c.args[0]) == f"{blockvar}.name"]
+    added = len(adds) == 1 and {(src(t), tr) for t, tr in guards(fn, adds[0], pm)} == gset and enclosing(fn, adds[0], (ast.For,), pm)[:1] == [f_ for f_ in fors if src(f_.target) == blockvar][:1]
     col.add("C15.R1", "generate_script_block", "marks-seen-in-emitting-branch", added,
             "the emitting branch must record the block in the seen set (otherwise it is emitted again)", g.loc)
+    lst = None       # the statement list of the emitting branch (used by the progress-flag form below)
+    holder = pm.get(adds[0]) if adds else None
+    while holder is not None and not isinstance(holder, ast.stmt):
+        holder = pm.get(holder)
+    if holder is not None:
+        par = pm.get(holder)
+        for fld in ("body", "orelse"):
+            if par is not None and holder in (getattr(par, fld, []) or []):
+                lst = getattr(par, fld)
     # the seen set starts empty and the output starts empty
-    inits = {src(s.targets[0]): src(s.value) for s in fn.body if isinstance(s, ast.Assign)}
+    inits = {}
+    for s_ in walk_no_nested(fn):
+        if isinstance(s_, ast.Assign) and len(s_.targets) == 1 and isinstance(s_.targets[0], ast.Name) and not enclosing(fn, s_, (ast.For, ast.While), pm):
+            inits.setdefault(src(s_.targets[0]), []).append(src(s_.value))
+    inits = {k: v[0] for k, v in inits.items() if len(v) == 1}
     col.add("C15.R1", "generate_script_block", "initial-state-empty",
             inits.get(seen) in ("set()",) and inits.get(outv) in ("[]", "list()"),
             f"seen starts as {inits.get(seen)}, output as {inits.get(outv)}", g.loc)
     # the lookup iterated holds every distinct block (keyed by name, first copy kept)
-    outer_for = fors[1] if len(fors) > 1 else None
+    block_fors = [f_ for f_ in fors if src(f_.target) == blockvar]
+    outer_for = block_fors[0] if block_fors else None
     lookup = src(outer_for.iter) if outer_for is not None else ""
     col.add("C15.R1", "generate_script_block", "iterates-all-distinct-blocks",
-            outer_for is not None and lookup.endswith(".values()") and src(outer_for.target) == blockvar,
+            outer_for is not None and lookup.endswith(".values()"),
             f"the emission loop must run over all distinct blocks ({lookup})", g.loc)
 
     # ---- R2 totality
@@ -118,41 +140,73 @@ def check(col: Collector, tier: str):
     wl = whiles[0]
     t = wl.test
     deps_name = None
-    ok_while = isinstance(t, ast.Compare) and isinstance(t.ops[0], ast.Lt) and src(t.left) == f"len({seen})" \
+    ok_while = isinstance(t, ast.Compare) and len(t.ops) == 1 and isinstance(t.ops[0], (ast.Lt, ast.NotEq)) and src(t.left) == f"len({seen})" \
         and src(t.comparators[0]).startswith("len(")
     if ok_while:
         deps_name = src(t.comparators[0])[4:-1]
     col.add("C15.R2", "generate_script_block", "loop-until-all-seen", ok_while,
             f"outer loop must continue while len(seen) < len(all blocks) (test: {src(t)})", g.loc)
-    # progress flag
-    flag = None
-    for s in wl.body:
-        if isinstance(s, ast.Assign) and isinstance(s.value, ast.Constant) and s.value.value is False:
-            flag = src(s.targets[0])
+    # progress detection, two equivalent idioms:
+    #   (a) a flag reset first in each sweep, set in the emitting branch, ValueError raised under `flag is False` after the sweep
+    #   (b) the number of emitted blocks remembered first in each sweep, ValueError raised under `len(seen) == <remembered>` after the sweep
+    raises = [r for st_ in wl.body for r in ast.walk(st_) if isinstance(r, ast.Raise) and r.exc is not None and "ValueError" in src(r.exc)]
+    sweep_idx = next((i for i, st_ in enumerate(wl.body) if outer_for is not None and any(x is outer_for for x in ast.walk(st_))), None)
+    progress_ok = False
+    cyc_branch = []
+    why_prog = "no ValueError after the sweep"
+    for r in raises:
+        rg = guards(wl, r, pm)
+        top = r
+        while pm.get(top) is not wl and pm.get(top) is not None:
+            top = pm[top]
+        after_sweep = sweep_idx is not None and top in wl.body and wl.body.index(top) > sweep_idx
+        for t_, tr_ in rg:
+            # (a) flag
+            if isinstance(t_, ast.Name) and not tr_:
+                flag = t_.id
+                first = wl.body[0]
+                reset_first = isinstance(first, ast.Assign) and src(first.targets[0]) == flag and isinstance(first.value, ast.Constant) and first.value.value is False
+                sets = [s_ for s_ in walk_no_nested(wl) if isinstance(s_, ast.Assign) and src(s_.targets[0]) == flag and isinstance(s_.value, ast.Constant) and s_.value.value is True]
+                set_in_branch = len(sets) == 1 and {(src(x), y) for x, y in guards(fn, sets[0], pm)} == gset
+                if reset_first and set_in_branch and after_sweep:
+                    progress_ok = True
+                else:
+                    why_prog = f"flag {flag}: reset first={reset_first}, set exactly in the emitting branch={set_in_branch}, raise after the sweep={after_sweep}"
+            # (b) count remembered before the sweep
+            if isinstance(t_, ast.Compare) and len(t_.ops) == 1 and isinstance(t_.ops[0], ast.Eq) and tr_:
+                sides = {src(t_.left), src(t_.comparators[0])}
+                if f"len({seen})" in sides and len(sides) == 2:
+                    other = (sides - {f"len({seen})"}).pop()
+                    first = wl.body[0]
+                    remembered = isinstance(first, ast.Assign) and src(first.targets[0]) == other and src(first.value) == f"len({seen})"
+                    rebinds = [s_ for s_ in walk_no_nested(wl) if isinstance(s_, (ast.Assign, ast.AugAssign)) and any(
+                        isinstance(n_, ast.Name) and n_.id == other and isinstance(n_.ctx, ast.Store) for n_ in ast.walk(s_))]
+                    if remembered and len(rebinds) == 1 and after_sweep:
+                        progress_ok = True
+                    else:
+                        why_prog = f"count {other}: remembered first={remembered}, bound once per sweep={len(rebinds) == 1}, raise after the sweep={after_sweep}"
+        if progress_ok:
+            st_ = pm.get(r)
+            cyc_branch = []
+            # the statements executed between the detection and the raise: the list the raise stands in
+            for fld in ("body", "orelse"):
+                if st_ is not None and r in (getattr(st_, fld, []) or []):
+                    cyc_branch = getattr(st_, fld)
             break
-    set_true = flag is not None and lst is not None and any(
-        isinstance(s, ast.Assign) and src(s.targets[0]) == flag and isinstance(s.value, ast.Constant) and s.value.value is True for s in lst)
-    raise_ok = False
-    for s in wl.body:
-        if isinstance(s, ast.If) and flag and src(s.test) == f"not {flag}":
-            raise_ok = any(isinstance(r, ast.Raise) and r.exc is not None and "ValueError" in src(r.exc) for r in ast.walk(s))
-    first_is_reset = flag is not None and isinstance(wl.body[0], ast.Assign) and src(wl.body[0].targets[0]) == flag
     # nothing between the detection of "no progress" and its ValueError may fail in another way: the branch is straight-line code
-    # (no loop, no next() without default, no indexing of the dependency tables by a computed key)
+    # (no loop, no next() without default)
     risky = []
-    for s in wl.body:
-        if isinstance(s, ast.If) and flag and src(s.test) in (f"not {flag}", flag):
-            br = s.body if src(s.test) == f"not {flag}" else s.orelse
-            for st_ in br:
-                for x in ast.walk(st_):
-                    if isinstance(x, (ast.While, ast.For)):
-                        risky.append(f"loop at line {x.lineno}")
-                    if isinstance(x, ast.Call) and call_name(x) == "next" and len(x.args) == 1:
-                        risky.append(src(x)[:50])
+    for st_ in cyc_branch:
+        for x in ast.walk(st_):
+            if isinstance(x, (ast.While, ast.For)):
+                risky.append(f"loop at line {x.lineno}")
+            if isinstance(x, ast.Call) and call_name(x) == "next" and len(x.args) == 1:
+                risky.append(src(x)[:50])
     col.add("C15.R2", "generate_script_block", "cycle-report-cannot-fail-otherwise", not risky,
             f"the circular-dependency branch must go straight to its ValueError; constructs that can raise StopIteration/KeyError or not terminate: {risky}", g.loc)
-    col.add("C15.R2", "generate_script_block", "no-progress-raises-ValueError", bool(flag) and set_true and raise_ok and first_is_reset,
-            "each sweep must reset a progress flag first, set it in the emitting branch, and raise ValueError when a sweep emits nothing (cycle)", g.loc)
+    col.add("C15.R2", "generate_script_block", "no-progress-raises-ValueError", progress_ok,
+            "a sweep that emits nothing (cycle) must raise ValueError: progress is detected by a flag (reset first, set in the emitting branch) or "
+            f"by the number of emitted blocks remembered before the sweep ({why_prog})", g.loc)
     # dependency table construction: every copy's depends_on is merged, on every non-raising path
     build = None
     for s in fn.body:
@@ -192,18 +246,36 @@ def check(col: Collector, tier: str):
             conflict = True
     col.add("C15.R2", "generate_script_block", "same-name-different-script-raises", conflict,
             "a repeated name whose script differs from the first copy must raise ValueError", g.loc)
-    # missing dependency raise, before emission (statement order: before the while)
+    # missing dependency raise, before emission (statement order: before the while).  Two spellings of "some dependency of some block is not
+    # a sent block": nested loops with the test inside, or a generator with the same clauses whose first element (next(.., None)) is tested
+    def scans_all_dependencies(gens_iter_srcs, cond) -> bool:
+        """clauses `for .. in D.items()/.values()` + `for d in <deps>` and the condition `d not in D`"""
+        return any((".items()" in it or ".values()" in it) and it.startswith(deps_name) for it in gens_iter_srcs) and len(gens_iter_srcs) == 2 \
+            and isinstance(cond, ast.Compare) and len(cond.ops) == 1 and isinstance(cond.ops[0], (ast.NotIn, ast.In)) and src(cond.comparators[0]) == deps_name
     missing = False
-    for s in fn.body:
-        if s is wl:
-            break
-        if isinstance(s, ast.For) and s is not build:
-            for n in ast.walk(s):
-                if isinstance(n, ast.If) and isinstance(n.test, ast.Compare) and isinstance(n.test.ops[0], ast.NotIn) \
-                        and src(n.test.comparators[0]) == deps_name \
-                        and any(isinstance(r, ast.Raise) and "ValueError" in src(r.exc) for r in n.body):
-                    # iterates all deps of all names
-                    missing = ".items()" in src(s.iter) or ".values()" in src(s.iter)
+    from sa.core.pyfacts import ordk
+    wl_guards = {(src(x), y) for x, y in guards(fn, wl, pm)}
+
+    def before_emission(r_) -> bool:
+        """the raise comes before the emission loop in program order, or stands in a branch that excludes it (guard clause turned around)"""
+        return ordk(r_) < ordk(wl) or any((src(x), not y) in wl_guards for x, y in guards(fn, r_, pm))
+    for r in [r_ for r_ in walk_no_nested(fn) if isinstance(r_, ast.Raise) and r_.exc is not None and "ValueError" in src(r_.exc)
+              and not any(x is r_ for x in ast.walk(wl)) and before_emission(r_)]:
+        lps = [l for l in enclosing(fn, r, (ast.For,), pm) if l is not build]
+        for t_, tr_ in guards(fn, r, pm):
+            # (a) inside the two loops, under `d in D` being false
+            if len(lps) == 2 and isinstance(t_, ast.Compare) and isinstance(t_.ops[0], ast.In) and not tr_ \
+                    and scans_all_dependencies([src(l.iter) for l in lps], t_) and not any(isinstance(x, (ast.Break, ast.Continue)) for l in lps for x in ast.walk(l)):
+                missing = True
+            # (b) under `<first offender> is None` being false, the offender being next(<generator over the same clauses>, None)
+            if isinstance(t_, ast.Compare) and isinstance(t_.ops[0], ast.Is) and not tr_ and isinstance(t_.left, ast.Name) and src(t_.comparators[0]) == "None":
+                ds = [st_.value for st_ in walk_no_nested(fn) if isinstance(st_, ast.Assign) and len(st_.targets) == 1 and src(st_.targets[0]) == t_.left.id]
+                if len(ds) == 1 and isinstance(ds[0], ast.Call) and call_name(ds[0]) == "next" and len(ds[0].args) == 2 and src(ds[0].args[1]) == "None" \
+                        and isinstance(ds[0].args[0], ast.GeneratorExp):
+                    ge = ds[0].args[0]
+                    conds = [c_ for g_ in ge.generators for c_ in g_.ifs]
+                    if len(conds) == 1 and scans_all_dependencies([src(g_.iter) for g_ in ge.generators], conds[0]) and isinstance(conds[0].ops[0], ast.NotIn):
+                        missing = True
     col.add("C15.R2", "generate_script_block", "unknown-dependency-raises-before-emission", missing,
             "every dependency of every block must be checked against the sent blocks, raising ValueError, before emission starts", g.loc)
     # first copy registered: lookup[b.name] = b only when new
